@@ -54,6 +54,10 @@ def judgeDisp (st : DispSt) (fields : List String) : DispSt × String :=
       let implHas := has.toList
       let bad := (List.zip st.reg implHas).any fun (c, ch) => (name = [] ∨ c.name = name) && ch == '1'
       let trip := if bad then " TRIP record_survives" else ""
+      -- monitor (C18): a cache the purge did not name keeps its record (the records are the ones the harness put)
+      let lost := (List.zip st.reg implHas).any fun (c, ch) =>
+        !(name = [] ∨ c.name = name) && ch == '0' && (match c.store with | some s => s.contains key | none => false)
+      let trip := trip ++ (if lost then " TRIP purge_touched_other" else "")
       let st' := { st with reg := reg', purged := targets.map (fun c => (c.name, key)) ++ st.purged }
       if mhas == has then (st', s!"ok purge 1{trip}") else (st', s!"DIFF purge model={mhas} impl={has}{trip}")
     | _, _, _ => (st, "BADLINE purge")
